@@ -25,6 +25,8 @@ def gen_cases(rnd, n, tier):
     cases.append({'shared': 'big', 'threads': [[['bbox', 'HL']], [['numtri', 'HL']], [['copy', 'HL']], [['mesh', 'HL']]]})
     # disjoint union (Compose) evaluated while IDs are reserved / other meshes imported
     cases.append({'threads': [[['mesh', 'D']], [['reserve']] * 40, [['reserve']] * 40]})
+    cases.append({'threads': [[['mesh', 'D'], ['mesh', 'H1']], [['reservespin', 200000]]]})
+    cases.append({'threads': [[['reservespin', 100000]], [['volume', 'D'], ['mesh', 'D']], [['reservespin', 100000]]]})
     cases.append({'threads': [[['mesh', 'D']], [['derive', 'H1'], ['reserve'], ['derive', 'H2']], [['reserve']] * 20]})
     cases.append({'threads': [[['xsarea'], ['xspolys']], [['xscopy'], ['xsbounds']], [['xspolys'], ['xsarea']]]})
     for i in range(n):
